@@ -192,7 +192,7 @@ def skipVA (c : Cfg) : P Unit := do
   else if e = 3 then do
     let v ← readInt32 c
     if v < 0 then P.fail .invalidSize else
-    seek (packedSize v)
+    skipBytes c (packedSize v)
   else P.fail .unknownEncoding
 
 end Sbdf
